@@ -364,7 +364,6 @@ View ==
     IF WF THEN LET pp == PermSets IN UNION {SymViews(sp, pp[2]) : sp \in pp[1]}
     ELSE {<<ref, F>>}>>
 
-Stat == PrintT(<<"NPERM", Cardinality(PermSets[1]) * Cardinality(PermSets[2])>>)
 
 (***************************************************************************)
 (* Operations.  <<code, x, y, z>>:                                         *)
@@ -378,6 +377,25 @@ Stat == PrintT(<<"NPERM", Cardinality(PermSets[1]) * Cardinality(PermSets[2])>>)
 OpRetarget == 1  OpGetReferent == 2  OpSetReferent == 3
 OpGetReferences == 4  OpApply == 5  OpAssign == 6
 
+\* The symbols a client KNOWS to be direct after a history, whatever order
+\* the generators chose: made direct by get_referent / set_referent / its own
+\* assignment / a get_references that yielded every reference / apply, and not
+\* moved by a retarget since.  (After a partial get_references the real cache
+\* may have converted other symbols than the model did.)
+RECURSIVE Known(_, _, _, _)
+Known(r, kn, ops, i) ==
+  IF i > Len(ops) THEN kn
+  ELSE LET op == ops[i] IN
+    CASE op[1] = OpRetarget -> Known(ARetarget(r, op[2], op[3], op[4] = 1), kn \ ARefs(r, op[2]), ops, i + 1)
+      [] op[1] = OpGetReferent -> Known(r, kn \cup {op[2]}, ops, i + 1)
+      [] op[1] \in {OpSetReferent, OpAssign} -> Known(ASet(r, op[2], op[3], op[4] = 1), kn \cup {op[2]}, ops, i + 1)
+      [] op[1] = OpGetReferences ->
+           Known(r, IF op[3] = KAll \/ op[3] >= Cardinality(ARefs(r, op[2])) THEN kn \cup ARefs(r, op[2]) ELSE kn,
+                 ops, i + 1)
+      [] op[1] = OpApply -> Known(r, Syms, ops, i + 1)
+KnownDirect == Known([s \in Syms |-> [b |-> hist[1][s][1], e |-> hist[1][s][2] = 1]], Syms, hist[2], 1)
+KnownSound == \A s \in KnownDirect : F.rfts[s] = 0
+
 \* enabled = in the domain of the property (Level A / public knowledge only)
 EnabledOps ==
   {<<OpRetarget, b, to, e>> : b \in Blocks, to \in Blocks, e \in 0..1}
@@ -386,7 +404,7 @@ EnabledOps ==
   \cup {<<OpSetReferent, s, to, e>> : s \in Syms, to \in 0..NB, e \in 0..1}
   \cup {<<OpGetReferences, b, k, 0>> : b \in Blocks, k \in 0..NS}
   \cup {<<OpApply, 0, 0, 0>>}
-  \cup {<<OpAssign, s, to, e>> : s \in {x \in Syms : F.rfts[x] = 0}, to \in 0..NB, e \in 0..1}
+AssignOps == {<<OpAssign, s, to, e>> : s \in KnownDirect, to \in 0..NB, e \in 0..1}
 
 Log(op) == hist' = <<hist[1], Append(hist[2], op)>>
 
@@ -454,12 +472,13 @@ Init == \E r \in InitRefs :
           /\ F = InitF(r)
           /\ hist = <<RefRows(r), <<>>>>
 
-\* Assign on a direct symbol is literally set_referent's effect on a direct
-\* symbol (same successor), so Next leaves it out; it is still emitted as an
-\* enabled operation for the replay.  Self-loops carry no information for the
-\* invariants (the Asserts on results are evaluated before the guard).
+\* A client assignment (Assign) on a direct symbol is literally set_referent's
+\* effect on a direct symbol (same successor), so Next leaves it out; AssignOps
+\* are still emitted as enabled operations for the replay.  Self-loops carry
+\* no information for the invariants (the Asserts on results are evaluated
+\* before the guard).
 Next == /\ Len(hist[2]) < MaxLen
-        /\ \E op \in {o \in EnabledOps : o[1] # OpAssign} : Do(op)
+        /\ \E op \in EnabledOps : Do(op)
         /\ <<ref', F'>> # <<ref, F>>
 
 Spec == Init /\ [][Next]_<<ref, F, hist>>
@@ -473,7 +492,7 @@ SetToSeq(S) == LET RECURSIVE f(_)
 
 EmitCase ==
   Emit => PrintT("CASE " \o ToJson([k |-> "rc", nb |-> NB, ns |-> NS, init |-> hist[1],
-                                     wit |-> hist[2], en |-> EnabledOps,
+                                     wit |-> hist[2], en |-> EnabledOps \cup AssignOps,
                                      kf |-> {op \in EnabledOps : op[1] = OpRetarget /\ RetargetRaises(F, op[2], op[3])},
                                      d |-> Len(hist[2])]))
 =============================================================================
